@@ -25,7 +25,7 @@
    generated site is covered.  Sites in files repaired for this property are
    matched exactly; sites in files owned by other properties are matched by
    (file, function, kind). *)
-From XV Require Import lib.Bytes lib.Xml gen.C09Sites.
+From XV Require Import lib.Bytes lib.Xml gen.C09Sites gen.HandOff.
 
 (* ---- outcomes ---- *)
 
@@ -57,7 +57,14 @@ Inductive aop :=
 | ALClose      (* Listener.Close *)
 | AMJoin       (* muc Join / Channel.Join of the room occupant *)
 | AMDepart     (* an unavailable presence of the occupant was processed *)
-| AMLeave.     (* Channel.Leave called *)
+| AMLeave      (* Channel.Leave called *)
+| AEExpect     (* Listener.Expect called for the session (from, sid) the peer will open; a call that is
+                  already waiting for the same session is superseded (cancelled by the library) *)
+| AECancel     (* the context of the waiting Expect call was cancelled by the application *)
+| AEOpen       (* an <open/> for that session was handled *)
+| ARSend       (* receipts: SendMessage registered a message that awaits its receipt *)
+| ARGone       (* receipts: that call returned or was cancelled *)
+| ARSignal.    (* receipts: the handler processed a receipt for the id of that message *)
 
 (* what the environment of a call looks like *)
 Record env := mkenv {
@@ -69,13 +76,16 @@ Record env := mkenv {
                               request is addressed to the session's local address; muc: the presence
                               comes from the occupant that joined *)
   e_full : bool;           (* the session's local address is a full JID *)
-  e_hist : list aop        (* application-side history *)
+  e_hist : list aop;       (* application-side history *)
+  e_match : bool           (* ibb: the <open/> is for the session (from, sid) Expect was called for *)
 }.
 
 (* facts read from the sources by the translator (gen/C09Sites.v) *)
 Record facts := mkfacts {
   f_keys_agree : bool;     (* the ibb listener table is deleted from under the key it is inserted with *)
-  f_depart_select : bool   (* muc: the departure notification is one alternative of a select *)
+  f_depart_select : bool;  (* muc: the departure notification is one alternative of a select *)
+  f_expect_owner : bool;   (* ibb: an Expect call that gives up removes the registration only if it is its own *)
+  f_rcpt_delete_first : bool (* receipts: the handler deletes the table entry before it signals the sender *)
 }.
 
 Definition is_start (t : token) : bool := match t with TStart _ _ => true | _ => false end.
@@ -228,7 +238,7 @@ Fixpoint items_pages (e : env) (replies : list rd) : cset :=
       | Some l =>
           let '(k, en) := kids 0 l in
           (if has_elem k then [CErr] else []) ++ iter_end en (r_term r) ++
-          (if existsb is_rsm_set k then items_pages (mkenv (e_tracked e) (e_ready e) (e_type e) true (e_full e) (e_hist e)) rest else [])
+          (if existsb is_rsm_set k then items_pages (mkenv (e_tracked e) (e_ready e) (e_type e) true (e_full e) (e_hist e) (e_match e)) rest else [])
       end
   end.
 
@@ -354,21 +364,39 @@ Definition blocklist_handle (start : token) (r : rd) : cset :=
 
 (* receipts.Handler.HandleMessage (repaired: children without start element
    are skipped; the pinned code dereferenced the nil start element).  The first
-   <received/> or <request/> child ends the loop: the receipt is signalled on a
-   channel that has room for it (never parks), the request is answered. *)
-Fixpoint rcpt_loop (k : list child) (e : kend) (tm : term) : cset :=
-  match k with
-  | [] => iter_end e tm
-  | CTok _ :: r => rcpt_loop r e tm
-  | CElem n _ :: r =>
-      if bytes_eqb (nlocal n) (str "received") || bytes_eqb (nlocal n) (str "request") then returns
-      else rcpt_loop r e tm
+   <received/> or <request/> child ends the loop.  A receipt for a message that
+   awaits one is signalled on that message's channel, which has room for ONE
+   token: the handler deletes the table entry first, so a repeated receipt finds
+   nothing; if it did not, the second signal that nobody consumes would park. *)
+Definition r_step (delfirst : bool) (st : bool * nat) (o : aop) : bool * nat :=
+  let '(entry, sig) := st in
+  match o with
+  | ARSend => (true, 0)
+  | ARGone => (false, sig)
+  | ARSignal => if entry then (if delfirst then (false, 0) else (true, S sig)) else st
+  | _ => st
   end.
 
-Definition receipts_handle (r : rd) : cset :=
+Definition r_state (delfirst : bool) (h : list aop) : bool * nat := fold_left (r_step delfirst) h (false, 0).
+
+Fixpoint rcpt_loop (f : facts) (ev : env) (k : list child) (e : kend) (tm : term) : cset :=
+  match k with
+  | [] => iter_end e tm
+  | CTok _ :: r => rcpt_loop f ev r e tm
+  | CElem n a :: r =>
+      if bytes_eqb (nlocal n) (str "received") then
+        let '(entry, sig) := r_state (f_rcpt_delete_first f) (e_hist ev) in
+        if existsb (bytes_eqb (attr_or_empty (str "id") a)) (e_tracked ev) && entry
+        then match sig with O => returns | S _ => CBlocked :: returns end
+        else returns
+      else if bytes_eqb (nlocal n) (str "request") then returns
+      else rcpt_loop f ev r e tm
+  end.
+
+Definition receipts_handle (f : facts) (ev : env) (r : rd) : cset :=
   match r_toks r with
   | [] => [CErr]
-  | _ :: rest => let '(k, e) := kids 0 rest in rcpt_loop k e (r_term r)
+  | _ :: rest => let '(k, e) := kids 0 rest in rcpt_loop f ev k e (r_term r)
   end.
 
 (* ibb (owned by C15/C06).  The handler keeps a table of listeners keyed by an
@@ -377,6 +405,12 @@ Definition receipts_handle (r : rd) : cset :=
    the deletion is not the key of the insertion (and they differ: the local
    address is a full JID) the entry stays, with its channel closed. *)
 Inductive lstate := LNone | LOpen (accepting : bool) | LStale.
+
+(* the listener's table of expected sessions, for the one session the
+   application calls Expect for: nobody waits; a waiting call is registered; a
+   call is waiting but its registration is gone (a superseded call that gave up
+   removed the registration of the call that replaced it) *)
+Inductive estate := ENone | EReg | ELost.
 
 Definition l_step (agree full : bool) (st : lstate) (o : aop) : lstate :=
   match o, st with
@@ -388,19 +422,38 @@ Definition l_step (agree full : bool) (st : lstate) (o : aop) : lstate :=
 
 Definition l_state (agree full : bool) (h : list aop) : lstate := fold_left (l_step agree full) h LNone.
 
+Definition e_step (owner : bool) (st : estate) (o : aop) : estate :=
+  match o, st with
+  | AEExpect, ENone => EReg
+  | AEExpect, _ => if owner then EReg else ELost   (* the superseded call gives up and cleans up *)
+  | AECancel, _ => ENone
+  | AEOpen, EReg => ENone                          (* handed over: the entry is consumed *)
+  | _, _ => st
+  end.
+
+Definition e_state (owner : bool) (h : list aop) : estate := fold_left (e_step owner) h ENone.
+
+(* a call of Expect is waiting (whatever the table says) *)
+Definition expect_live (h : list aop) : bool :=
+  match e_state true h with ENone => false | _ => true end.
+
 (* decode first; an accepted <open/> addressed to the session is answered and the
-   new connection handed to a matching Expect call if one is still waiting
-   (select with its done channel), otherwise to the listener over its
-   unbuffered accept channel: parked until the application calls Accept, a panic
-   if that channel has been closed *)
+   new connection handed to the Expect call registered for it (select with its
+   done channel: never parks), otherwise to the listener over its unbuffered
+   accept channel: parked until the application calls Accept, a panic if that
+   channel has been closed *)
 Definition ibb_iq (f : facts) (e : env) (start : token) : cset :=
   match start with
   | TStart n _ =>
       if bytes_eqb (nlocal n) (str "open") && e_ok e then
         match l_state (f_keys_agree f) (e_full e) (e_hist e) with
-        | LNone | LOpen true => returns
-        | LOpen false => CBlocked :: returns
+        | LNone => returns
         | LStale => CPanic :: returns
+        | LOpen acc =>
+            match (if e_match e then e_state (f_expect_owner f) (e_hist e) else ENone) with
+            | EReg => returns
+            | _ => if acc then returns else CBlocked :: returns
+            end
         end
       else returns
   | _ => returns
@@ -523,6 +576,8 @@ Definition modelled_sites : list (site * stag) := [
   (mksite (str "session.go") (str "handleInputStream") KIndex (str "start.Attr[i]"), SSafe);
   (mksite (str "session.go") (str "handleInputStream") KSendSel (str "readerChan.c <- iqResponder{ r: xmlstream.Wrap(inner, start), c: readerChan.c, }"), SEnv);
   (mksite (str "session.go") (str "iqResponder.Close") KClose (str "close(r.c)"), SEnv);
+  (mksite (str "session.go") (str "setDeadline") KSend (str "done <- false"), SEnv);
+  (mksite (str "session.go") (str "setDeadline") KSend (str "done <- true"), SEnv);
   (mksite (str "session.go") (str "stanzaEncoder.EncodeToken") KMake (str "make([]xml.Attr, 0, len(tok.Attr)+2)"), SSafe);
   (mksite (str "session.go") (str "stanzaEncoder.EncodeToken") KSlice (str "tok.Attr[:0]"), SSafe);
   (mksite (str "session_iq.go") (str "Session.SendIQ") KIndex (str "start.Attr[idx]"), SSafe);
@@ -581,7 +636,7 @@ Definition run_comp (f : facts) (c : comp) (e : env) (start : token) (rs : list 
   let r := first_rd rs in
   match c with
   | HHistory => history_handle e r
-  | HReceipts => receipts_handle r
+  | HReceipts => receipts_handle f e r
   | HCarbons => carbons_handle r
   | HBlocklist => blocklist_handle start r
   | HRoster | HXtime | HPing | HIbbMsg | HMucMsg => returns
@@ -634,7 +689,12 @@ Definition muc_depart_site : site :=
   mksite (str "muc/muc.go") (str "Client.HandlePresence") KSendSel (str "channel.depart <- struct{}{}").
 
 Definition gen_facts : facts :=
-  mkfacts (keys_agree listener_table_keys) (existsb (site_eqb muc_depart_site) generated_sites).
+  mkfacts (keys_agree listener_table_keys) (existsb (site_eqb muc_depart_site) generated_sites)
+          ho_ibb_expect_cleanup_checks_owner receipts_delete_precedes_send.
+
+(* every access of the session's map of pending requests is inside a lock region of its mutex *)
+Definition session_maps_locked : bool :=
+  negb (is_nil session_map_accesses) && forallb (fun x => snd x) session_map_accesses.
 
 (* ---- correspondence ---- *)
 
